@@ -1934,7 +1934,7 @@ fn main() {
     let quick = cli.tier.is_quick();
     let shards = if quick { 16 } else { 64 };
     // per shard
-    let (n_random, n_boundary, n_window, ops) = if quick { (12u64, 8u64, 2u64, 160u64) } else { (36, 26, 6, 220) };
+    let (n_random, n_boundary, n_window, ops) = if quick { (12u64, 8u64, 2u64, 160u64) } else { (24, 16, 4, 200) };
     let mut report = run_sharded("C13", cli.threads, shards, |i, r| {
         let secp = Secp256k1::new();
         let mut rng = Rng::new(cli.seed.wrapping_mul(1_000_003).wrapping_add(i as u64) ^ 0xC13);
